@@ -3,6 +3,8 @@ package rules
 import (
 	"fmt"
 	"go/types"
+	"sort"
+	"strings"
 
 	"golang.org/x/tools/go/ssa"
 	"verif/checker/internal/core"
@@ -46,6 +48,39 @@ func errResultIsNilConst(ret *ssa.Return) (isNil bool, hasErr bool) {
 		return false, false
 	}
 	return core.IsNilConst(last), true
+}
+
+// nilSuccessSites: the points at which a nil error result of ret is committed: ret itself when the error
+// result is the nil constant; for a merged exit (error result is a φ) the last instruction of every
+// predecessor block whose incoming value is the nil constant (nested φs are followed).
+func nilSuccessSites(ret *ssa.Return) []ssa.Instruction {
+	_, has := errResultIsNilConst(ret)
+	if !has {
+		return nil
+	}
+	var out []ssa.Instruction
+	seen := map[*ssa.Phi]bool{}
+	var walk func(v ssa.Value, at ssa.Instruction)
+	walk = func(v ssa.Value, at ssa.Instruction) {
+		if core.IsNilConst(v) {
+			out = append(out, at)
+			return
+		}
+		phi, ok := v.(*ssa.Phi)
+		if !ok || seen[phi] {
+			return
+		}
+		seen[phi] = true
+		for i, e := range phi.Edges {
+			pb := phi.Block().Preds[i]
+			if len(pb.Instrs) == 0 {
+				continue
+			}
+			walk(e, pb.Instrs[len(pb.Instrs)-1])
+		}
+	}
+	walk(ret.Results[len(ret.Results)-1], ret)
+	return out
 }
 
 func runC01(c *core.Ctx) {
@@ -138,26 +173,31 @@ func runC01(c *core.Ctx) {
 		isSendState := func(st *core.SelState) bool {
 			return st.Dir == types.SendOnly && e.isField(st.Chan, r.WriteQueue)
 		}
-		sig := ""
+		var parts []string
 		for _, si := range sels {
 			c.Instance("R2")
-			kinds := ""
+			var ks []string
 			for _, st := range si.States {
 				if st.Dir == types.SendOnly && e.isField(st.Chan, r.WriteQueue) {
 					sendEdges[[2]*ssa.BasicBlock{st.From, st.Body}] = true
-					kinds += "S"
+					ks = append(ks, "S")
 				} else if st.Dir == types.RecvOnly {
-					kinds += "R"
+					ks = append(ks, "R")
 				} else {
-					kinds += "?"
+					ks = append(ks, "?")
 				}
 			}
+			// neither the order of the cases within a select nor the order of the selects in the source matters
+			sort.Strings(ks)
+			kinds := strings.Join(ks, "")
 			if si.Sel.Blocking {
-				sig += "[blocking " + kinds + "]"
+				parts = append(parts, "[blocking "+kinds+"]")
 			} else {
-				sig += "[nonblocking " + kinds + "]"
+				parts = append(parts, "[nonblocking "+kinds+"]")
 			}
 		}
+		sort.Strings(parts)
+		sig := strings.Join(parts, "")
 		sigs = append(sigs, sig)
 		// plain Send instructions count as accept points too
 		var plainSends []*ssa.Send
@@ -189,8 +229,13 @@ func runC01(c *core.Ctx) {
 					// the payload is queued and will be transmitted: the call may no longer report an error
 					bad, bpath := core.Search(nil, st.Body, func(in ssa.Instruction) core.Action {
 						if ret, ok := in.(*ssa.Return); ok {
-							if isNil, has := errResultIsNilConst(ret); has && !isNil {
-								return core.Target
+							if _, has := errResultIsNilConst(ret); has {
+								// a merged exit (single return fed by a φ): only the values this side can deliver count
+								for _, v := range phiEdgesFrom(ret.Results[len(ret.Results)-1], st.Body, nil) {
+									if !core.IsNilConst(v) {
+										return core.Target
+									}
+								}
 							}
 							return core.Barrier
 						}
@@ -249,21 +294,21 @@ func runC01(c *core.Ctx) {
 				if !ok {
 					return
 				}
-				if isNil, has := errResultIsNilConst(ret); !has || !isNil {
-					return
+				for _, site := range nilSuccessSites(ret) {
+					site := site
+					// search from entry to the point where the nil error is committed, avoiding send bodies / plain sends
+					tgt, path := core.Search(nil, f.Blocks[0], func(x ssa.Instruction) core.Action {
+						if x == site {
+							return core.Target
+						}
+						if s, ok := x.(*ssa.Send); ok && e.queueSend(s) {
+							return core.Barrier
+						}
+						return core.Continue
+					}, func(a, b *ssa.BasicBlock) bool { return !sendEdges[[2]*ssa.BasicBlock{a, b}] })
+					c.Check(tgt == nil, "R2", core.FName(E)+"/success-only-after-enqueue", p.InstrPos(site),
+						"success return is reachable only after the payload was enqueued", "a success (nil error) return is reachable without enqueueing the payload", p.PathString(path, tgt)...)
 				}
-				// search from entry to this return avoiding send bodies / plain sends
-				tgt, path := core.Search(nil, f.Blocks[0], func(x ssa.Instruction) core.Action {
-					if x == ret {
-						return core.Target
-					}
-					if s, ok := x.(*ssa.Send); ok && e.queueSend(s) {
-						return core.Barrier
-					}
-					return core.Continue
-				}, func(a, b *ssa.BasicBlock) bool { return !sendEdges[[2]*ssa.BasicBlock{a, b}] })
-				c.Check(tgt == nil, "R2", core.FName(E)+"/success-only-after-enqueue", p.InstrPos(ret),
-					"success return is reachable only after the payload was enqueued", "a success (nil error) return is reachable without enqueueing the payload", p.PathString(path, tgt)...)
 			})
 		}
 	}
@@ -283,25 +328,25 @@ func runC01(c *core.Ctx) {
 				if !ok {
 					return
 				}
-				if isNil, has := errResultIsNilConst(ret); !has || !isNil {
-					return
-				}
-				c.Instance("R2")
-				tgt, path := core.Search(nil, fn.Blocks[0], func(x ssa.Instruction) core.Action {
-					if x == ssa.Instruction(ret) {
-						return core.Target
-					}
-					return core.Continue
-				}, func(a, b *ssa.BasicBlock) bool {
-					for _, pt := range pts {
-						if isErrNilEdge(a, b, pt.errv) {
-							return false
+				for _, site := range nilSuccessSites(ret) {
+					site := site
+					c.Instance("R2")
+					tgt, path := core.Search(nil, fn.Blocks[0], func(x ssa.Instruction) core.Action {
+						if x == site {
+							return core.Target
 						}
-					}
-					return true
-				})
-				c.Check(tgt == nil, "R2", core.FName(fn)+"/success-only-after-enqueue", p.InstrPos(ret),
-					"success return is reachable only on the accepted side of the enqueue helper", "a success (nil error) return is reachable without the enqueue helper having accepted the payload", p.PathString(path, tgt)...)
+						return core.Continue
+					}, func(a, b *ssa.BasicBlock) bool {
+						for _, pt := range pts {
+							if isErrNilEdge(a, b, pt.errv) {
+								return false
+							}
+						}
+						return true
+					})
+					c.Check(tgt == nil, "R2", core.FName(fn)+"/success-only-after-enqueue", p.InstrPos(site),
+						"success return is reachable only on the accepted side of the enqueue helper", "a success (nil error) return is reachable without the enqueue helper having accepted the payload", p.PathString(path, tgt)...)
+				}
 			})
 		}
 	}
